@@ -74,6 +74,7 @@ def walk(img, max_txn=64):
     while len(txns) < max_txn:
         t = {"tid": tid, "tags": [], "revokes": [], "committed": False}
         ended = False
+        v1sum = 0xFFFFFFFF
         while True:
             b = jblk(pos)
             m, bt, s = struct.unpack_from(">III", b, 0)
@@ -88,6 +89,7 @@ def walk(img, max_txn=64):
                     if stored != calc:
                         problems.append("descriptor block (log block %d, tid %d) tail checksum %08x, format "
                                         "defines %08x" % (pos, tid, stored, calc))
+                v1sum = crc.crc32_be(v1sum, b)
                 off = 12
                 limit = bs - (4 if (v2 or v3) else 0)
                 dpos = pos
@@ -102,6 +104,7 @@ def walk(img, max_txn=64):
                         off += 16
                     dpos = nxt(dpos)
                     data = jblk(dpos)
+                    v1sum = crc.crc32_be(v1sum, data)
                     fsblk = lo | (hi << 32 if is64 else 0)
                     t["tags"].append((fsblk, flags, dpos))
                     stats["tags"] += 1
@@ -148,6 +151,14 @@ def walk(img, max_txn=64):
                     if stored != calc:
                         problems.append("commit block (log block %d, tid %d) checksum %08x, format defines %08x"
                                         % (pos, tid, stored, calc))
+                elif compat & COMPAT_CHECKSUM:
+                    # v1: crc32 (big-endian) over the descriptor and data blocks of the transaction,
+                    # in log order; revoke blocks are not part of it
+                    ctype, csize = b[12], b[13]
+                    stored = struct.unpack_from(">I", b, 16)[0]
+                    if ctype == 1 and csize == 4 and stored != v1sum:
+                        problems.append("commit block (log block %d, tid %d) v1 checksum %08x, format defines "
+                                        "%08x (crc32_be over descriptor + data blocks)" % (pos, tid, stored, v1sum))
                 t["committed"] = True
                 pos = nxt(pos)
                 break
